@@ -5,7 +5,7 @@
 # usage: verify_seeded.sh <ID> <k> <kind> <demo>     kind = sh | py | rstest
 set -u
 ID=$1; K=$2; KIND=$3; DEMO=$4
-WT=/tmp/mut-$ID; OUT=$WT/OUT/m$K
+WT=${WTBASE:-/tmp/mut}-$ID; OUT=$WT/OUT/m$K
 export CARGO_TARGET_DIR=$WT/target CARGO_NET_OFFLINE=true SFS_ALLOW_STDIN=1
 cd $WT || exit 2
 git checkout -q -- . ; rm -f core/tests/*.rs core/examples/*.rs 2>/dev/null
@@ -25,7 +25,7 @@ cargo build --offline -q 2>/dev/null
 run_demo; rc_orig=$?
 echo "$ID m$K: suite with mutant: $suite; demo rc with mutant=$rc_mut, on original=$rc_orig"
 if [ "$rc_mut" != 0 ] && [ "$rc_orig" = 0 ] && [[ "$suite" == "90 passed 0 failed" ]]; then
-  D=/verif/seeded/$ID-m$K; mkdir -p $D
+  D=/verif/seeded/$ID-${SUFFIX:-m}$K; mkdir -p $D
   cp -r $OUT/* $D/ ; rm -f $D/*.log
   echo CONFIRMED
 else
